@@ -225,6 +225,46 @@ pub fn run(ctx: &Ctx, rep: &mut Report) {
             }
         }
     }
+    // several bytes outside the alphabet at once: every pair of positions (and every aligned group
+    // of four) of strings of 4 .. 70 characters, with bytes from both sides of the alphabet's edges
+    // and ASCII separators - verdicts combined per group of four must not cancel out
+    {
+        const BAD: [u8; 12] = [b' ', b'\r', b'\n', b',', b'*', b'X', b'_', b'x', 0x7f, b'/', 0x00, 0x80];
+        let mut idx3 = 0u64;
+        for len in [4usize, 5, 6, 7, 8, 9, 12, 16, 33, 70] {
+            for i in 0..len {
+                for j in (i + 1)..len {
+                    if !ctx.mine(idx3) {
+                        idx3 += 1;
+                        continue;
+                    }
+                    idx3 += 1;
+                    for rep_i in 0..4 {
+                        let mut t: Vec<u8> = (0..len).map(|_| *r.pick(armor::ALPHABET)).collect();
+                        let (a, b) = if rep_i == 0 { (b'X', b'X') } else { (*r.pick(&BAD), *r.pick(&BAD)) };
+                        t[i] = a;
+                        t[j] = b;
+                        check(rep, &t, r.below(6) as usize, "two-invalid");
+                    }
+                }
+            }
+            // three and four invalid bytes inside one aligned group, and spread over two groups
+            for g in (0..len / 4).take(4) {
+                for mask in 1u8..16 {
+                    if mask.count_ones() < 3 {
+                        continue;
+                    }
+                    let mut t: Vec<u8> = (0..len).map(|_| *r.pick(armor::ALPHABET)).collect();
+                    for k in 0..4 {
+                        if mask >> k & 1 == 1 {
+                            t[4 * g + k] = *r.pick(&BAD);
+                        }
+                    }
+                    check(rep, &t, 0, "group-invalid");
+                }
+            }
+        }
+    }
     // far beyond any AIS message, but the statement is "for every string": lengths around the
     // points where 16-bit bit / byte / character-group counters would wrap (2^16 .. 2^23 bits,
     // 2^16 bytes, 2^16 groups of four characters) and powers of two of the character count
